@@ -4,6 +4,10 @@
 #[derive(Clone, Debug)]
 pub struct Rng {
     s: [u64; 4],
+    /// coverage-guided mode (libFuzzer target `model`): decisions are read from this byte string while it lasts
+    /// (one octet for a choice among <= 256, two for <= 65536, eight otherwise), then from the generator seeded
+    /// with its hash. `None` in every registered tzmon workload.
+    tape: Option<(std::sync::Arc<[u8]>, usize)>,
 }
 
 fn splitmix(x: &mut u64) -> u64 {
@@ -22,13 +26,41 @@ pub fn mix(a: u64, b: u64) -> u64 {
 impl Rng {
     pub fn new(seed: u64) -> Rng {
         let mut x = seed;
-        Rng { s: [splitmix(&mut x), splitmix(&mut x), splitmix(&mut x), splitmix(&mut x)] }
+        Rng { s: [splitmix(&mut x), splitmix(&mut x), splitmix(&mut x), splitmix(&mut x)], tape: None }
+    }
+    pub fn from_bytes(data: &[u8]) -> Rng {
+        let mut h = 0xcbf29ce484222325u64;
+        for &b in data {
+            h = (h ^ b as u64).wrapping_mul(0x100000001b3);
+        }
+        let mut r = Rng::new(h);
+        r.tape = Some((std::sync::Arc::from(data), 0));
+        r
+    }
+    #[cold]
+    fn tape_take(&mut self, n: usize) -> Option<u64> {
+        let (t, pos) = self.tape.as_mut()?;
+        if *pos + n > t.len() {
+            self.tape = None;
+            return None;
+        }
+        let mut v = 0u64;
+        for k in 0..n {
+            v |= (t[*pos + k] as u64) << (8 * k);
+        }
+        *pos += n;
+        Some(v)
     }
     pub fn for_case(seed: u64, workload: u64, index: u64) -> Rng {
         Rng::new(mix(mix(seed, workload), index))
     }
     #[inline]
     pub fn next(&mut self) -> u64 {
+        if self.tape.is_some() {
+            if let Some(v) = self.tape_take(8) {
+                return v;
+            }
+        }
         let r = self.s[1].wrapping_mul(5).rotate_left(7).wrapping_mul(9);
         let t = self.s[1] << 17;
         self.s[2] ^= self.s[0];
@@ -44,6 +76,18 @@ impl Rng {
     pub fn below(&mut self, n: u64) -> u64 {
         if n == 0 {
             return 0;
+        }
+        if self.tape.is_some() {
+            let w = if n <= 256 {
+                1
+            } else if n <= 65536 {
+                2
+            } else {
+                8
+            };
+            if let Some(v) = self.tape_take(w) {
+                return v % n;
+            }
         }
         ((self.next() as u128 * n as u128) >> 64) as u64
     }
